@@ -53,6 +53,9 @@ func catalogue(form string) []corruption {
 	case "variants", "variants-stdin":
 		fasta("msa")
 		out = append(out, corruption{"anno_suffix_unknown", "", ""})
+	case "variants-annoref":
+		fasta("msa")
+		out = append(out, corruption{"anno_suffix_unknown", "", ""}, corruption{"ref_width", "msa", ""}, corruption{"ref_width", "msa", "narrow"})
 	case "snps", "snps-agg", "updownlist":
 		fasta("query")
 		out = append(out, corruption{"empty_file", "ref", ""}, corruption{"bad_symbol", "ref", "first"}, corruption{"ref_width", "ref", ""})
@@ -81,6 +84,10 @@ func catalogue(form string) []corruption {
 	case "cli-toma":
 		out = append(out, corruption{"cli_window_start_gt_end", "", ""}, corruption{"cli_old_and_new_flags", "", ""}, corruption{"cli_missing_file", "", ""}, corruption{"empty_file", "cli", ""},
 			corruption{"cli_window_start_zero", "", ""}, corruption{"cli_window_end_zero", "", ""}, corruption{"cli_window_end_beyond", "", ""})
+	case "indels":
+		samC()
+	case "cli-indels":
+		out = append(out, corruption{"cli_missing_file", "", ""}, corruption{"empty_file", "cli", ""})
 	case "cli-topa-stdout":
 		out = append(out, corruption{"cli_window_start_gt_end", "", ""}, corruption{"cli_missing_file", "", ""}, corruption{"empty_file", "cli", ""},
 			corruption{"cli_window_start_zero", "", ""}, corruption{"cli_window_end_zero", "", ""}, corruption{"cli_window_end_beyond", "", ""})
@@ -97,7 +104,7 @@ func argIndex(a []string, flag string) int {
 	return -1
 }
 
-var c18Forms = append(append([]string{}, allCmds...), "topranking-csv", "cli-variants", "cli-samvariants", "cli-topranking", "cli-toma", "cli-topa-stdout")
+var c18Forms = append(append([]string{}, allCmds...), "topranking-csv", "cli-variants", "cli-samvariants", "cli-topranking", "cli-toma", "cli-topa-stdout", "indels", "cli-indels")
 
 type fastaRec struct {
 	head string
@@ -187,7 +194,7 @@ func applyCorruption(c *Case, k corruption, r *Rand) *Case {
 				return nil
 			}
 			j := r.Intn(len(line))
-			recs[i].seq[li] = line[:j] + r.Pick("J", "Z", "!", "1", "E", "*", "x") + line[j+1:]
+			recs[i].seq[li] = line[:j] + badSymbol(r, j, len(line)) + line[j+1:]
 		}
 		out.Files[k.File] = renderFasta(recs, nl)
 	case "empty_file":
@@ -202,13 +209,20 @@ func applyCorruption(c *Case, k corruption, r *Rand) *Case {
 		out.Files[k.File] = text + ">ref2\n" + strings.Repeat("A", refLen()) + "\n"
 	case "ref_width":
 		if k.File == "msa" {
-			// the msa (incl. its reference row) is one column wider than the annotation's sequence
+			// every row of the msa (queries only: the reference is the annotation's sequence) is one column wider / narrower than the reference
 			recs, nl := parseFasta(text)
 			for i := range recs {
 				if len(recs[i].seq) == 0 {
 					return nil
 				}
-				recs[i].seq[len(recs[i].seq)-1] += "A"
+				if last := len(recs[i].seq) - 1; k.Pos == "narrow" {
+					if len(recs[i].seq[last]) == 0 || len(strings.Join(recs[i].seq, "")) < 2 {
+						return nil
+					}
+					recs[i].seq[last] = recs[i].seq[last][:len(recs[i].seq[last])-1]
+				} else {
+					recs[i].seq[last] += "A"
+				}
 			}
 			out.Files[k.File] = renderFasta(recs, nl)
 		} else {
@@ -586,4 +600,27 @@ func checkC18(t *Trial, ctx *Ctx) *Failure {
 		}
 	}
 	return nil
+}
+
+// badSymbol is a byte that is certainly not a nucleotide symbol, for column j of a sequence line of n columns:
+// half of the time one of the usual suspects, otherwise any of the 256 byte values that is not an IUPAC code,
+// '-' or '?' in either case, is not a line feed, does not turn the line into a header ('>' in column 0) and is
+// not a carriage return in the last column (CRLF is a line end, not a symbol).
+func badSymbol(r *Rand, j, n int) string {
+	if r.Bool() {
+		return r.Pick("J", "Z", "!", "1", "E", "*", "x")
+	}
+	for {
+		b := byte(r.Intn(256))
+		if strings.IndexByte("ACGTRYSWKMBDHVNacgtryswkmbdhvn-?\n", b) >= 0 || b == '>' && j == 0 || b == '\r' && j == n-1 {
+			continue
+		}
+		if r.P(0.25) { // the near misses: bytes one bit away from a valid symbol
+			b = "ACGTN-?"[r.Intn(7)] ^ (1 << uint(r.Intn(8)))
+			if strings.IndexByte("ACGTRYSWKMBDHVNacgtryswkmbdhvn-?\n", b) >= 0 || b == '>' && j == 0 || b == '\r' && j == n-1 {
+				continue
+			}
+		}
+		return string([]byte{b})
+	}
 }
